@@ -27,6 +27,7 @@ def run(ctx):
     lib_module.array_flags(ctx, P)
     lib_module.bytes_length(ctx, P)
     lib_module.parsed_used(ctx, P)
+    lib_module.format_types(ctx, P)
     lib_file.offsets_cover(ctx, P)
     ctx.assumptions += [
         "clang-14's AST reflects the code that setup.py compiles (same include paths, -std=c99)",
